@@ -14,10 +14,20 @@ func (s *zzSink9) Write(p []byte) (int, error) {
 
 // zzPeerName: 0..max bytes chosen by the peer. ASCII without NUL: bytes >= 0x80 cannot travel through JSON
 // unchanged and the OS rejects NUL, so neither can name a file.
+var zzAlpha9 = "./a"
+
 func zzPeerName(max int) string {
-	n := verifNondetRange(0, max)
+	n := max
+	if verifBoundOr("EXACT", 0) == 0 {
+		n = verifNondetRange(0, max)
+	}
 	b := make([]byte, n)
 	for i := range b {
+		if verifBoundOr("ALPHA", 0) >= 1 {
+			// the bytes that matter to path resolution here: dot, separator, one ordinary letter (longer lists at lower cost)
+			b[i] = zzAlpha9[verifNondetRange(0, len(zzAlpha9)-1)]
+			continue
+		}
 		c := verifNondetByte()
 		verifAssume(c != 0)
 		verifAssume(c < 0x80)
@@ -27,10 +37,29 @@ func zzPeerName(max int) string {
 }
 
 func zzPeerPathList() []string {
-	k := verifNondetRange(1, verifBound("ELEMS"))
+	k := verifBound("ELEMS")
+	if verifBoundOr("EXACT", 0) == 0 {
+		k = verifNondetRange(1, k)
+	}
+	if verifBoundOr("DICT", 0) == 1 {
+		// longer lists at lower cost: every element is one of the shapes that matter to path resolution
+		dict := []string{"a", "..", ".", "a/b", "a/", "/a", "", "a/..", "../a", "a\\b"}
+		rel := make([]string, k)
+		for i := range rel {
+			rel[i] = dict[verifNondetRange(0, len(dict)-1)]
+		}
+		return rel
+	}
 	rel := make([]string, k)
 	for i := range rel {
-		rel[i] = zzPeerName(verifBound("BYTES"))
+		n := verifBound("BYTES")
+		zzAlpha9 = "./a"
+		if i == 0 {
+			n = verifBoundOr("FIRST", n) // the first element (the one the receiver maps to a local name) may be longer
+		} else if verifBoundOr("ALPHA", 0) == 2 {
+			zzAlpha9 = ".a" // a separator only inside the first element
+		}
+		rel[i] = zzPeerName(n)
 	}
 	return rel
 }
@@ -105,9 +134,9 @@ func zzH_C09_archive() {
 	w, _, err := t.createDirOrFile(root, top, false)
 	verifAssume(err == nil)
 	verifAssume(w != nil)
-	rel := append([]string{"d"}, zzPeerPathList()...)
+	rel := zzPeerPathList()
 	if verifNondetBool() {
-		rel = zzPeerPathList() // the first element need not repeat the announced directory
+		rel = append([]string{"d"}, rel...) // the first element may or may not repeat the announced directory
 	}
 	isDir := verifNondetBool()
 	ent := &sourceFile{PathID: 0, RelPath: rel, IsDir: isDir}
@@ -123,6 +152,10 @@ func zzH_C09_archive() {
 	err = writeAll(w, stream)
 	w.Close()
 	verifAssert(!verifFSEscaped(), "created, written or removed outside the destination")
+	if verifBoundOr("DEL", 0) == 1 {
+		t.deleteCreatedFiles() // the user stops and deletes: whatever was recorded as created is removed
+		verifAssert(!verifFSEscaped(), "stop-and-delete removed something outside the destination")
+	}
 	if err == nil {
 		verifReach("accepted")
 	} else {
